@@ -26,7 +26,7 @@ import (
 
 func TestVerif_C17_Marshaler(t *testing.T) {
 	acct := vacct.Get("C17")
-	vacct.RapidCheck(t, vacct.N(150, 15000), func(rt *rapid.T) {
+	vacct.RapidCheck(t, vacct.N(150, 60000), func(rt *rapid.T) {
 		interval := rapid.SampledFrom([]time.Duration{time.Second, 2 * time.Second, time.Minute, time.Hour}).Draw(rt, "interval")
 		type step struct {
 			kind  string
